@@ -154,7 +154,9 @@ def extract_from_templates(
         ):
             # A partial reimplementation of Babel's messages.extract function.
             # See https://github.com/python-babel/babel/blob/master/babel/messages/extract.py#L262
-            spec: SPEC = keywords[funcname] or (1,)
+            # `funcname` is the gettext function a filter or tag stands for. It need
+            # not be one of the names the caller asked us to look for.
+            spec: SPEC = keywords.get(funcname, DEFAULT_KEYWORDS.get(funcname)) or (1,)
             if not isinstance(messages, (list, tuple)):
                 messages = (messages,)  # noqa: PLW2901
             if not messages:
